@@ -79,7 +79,19 @@ class C02(Check):
                           "binder_names": f"every admissible assignment from pool {list(spool)}; a binder may be spelled "
                                           "like the free name when that name is not used below it"},
                          (lambda spool=spool: scopecases.sources(spool))))
+        out.append(Space("where-chains", {"generator": "scopecases.where_chains: 2..3 Where filters from {comparison, or, and, not, or-in-and, "
+                                                        "and-in-or, True} that become adjacent directly / across a Select / inside SelectMany / under Count",
+                                          "binder_names": "every admissible assignment from pool ['e','j']"},
+                         scopecases.where_chains, runner="run_chain"))
+        out.append(Space("called-defaults", {"generator": "scopecases.called_defaults: a called lambda with two defaulted parameters under every "
+                                                            "call shape Python accepts (positional count x keyword subset x keyword order); defaults "
+                                                            "constant or mentioning the enclosing parameter",
+                                             "binder_names": "every admissible assignment from pool ['e','j','t']"},
+                         scopecases.called_defaults, runner="run_chain_p3"))
         return out
+
+    def run_chain_p3(self, src):
+        return self.run_chain(src, qspaces.POOL3)
 
     def pair_menu(self, tier):
         """queries simplified one after the other WITHOUT resetting the library's fresh-name counter (as a backend
